@@ -25,12 +25,16 @@ def conc_cfg(rng):
         cfg["parameters"]["m%d" % k] = "<m%d|%%lit%%|%d-%%lit%%>" % (k, k)
     cfg["meta"]["functions"] = {"myfn": "fx.Fn1"}
     names = list(cfg["services"])
-    cfg["services"][names[-1]]["arguments"].append("%cat%")
+    cfg["services"][[x for x in names if x != "h"][-1]]["arguments"].append("%cat%")
     cfg["services"][names[0]]["tags"] = ["t"]
     cfg["services"][names[0]]["getter"] = "GetFirst"
     cfg["services"][names[0]]["type"] = "*fx.Obj"
     # repeated concurrent constructions with concatenated arguments
     cfg["services"]["ns"] = {"constructor": "fx.NewC", "arguments": ["ns", "x%lit%y%lit%z", "%m0%-%m1%"], "scope": "non_shared"}
+    # services created from a VALUE expression are evaluated per construction too: a contextual / non_shared one must be a
+    # fresh object (its call log shows exactly its own call) in every context / Get
+    cfg["services"]["vctx"] = {"value": "&fx.Obj{}", "scope": "contextual", "calls": [["Call1", ["v"]]], "fields": {"F1": "f"}}
+    cfg["services"]["vns"] = {"value": "&fx.Obj{}", "scope": "non_shared", "calls": [["Call1", ["v"]]]}
     return cfg
 
 
@@ -40,10 +44,15 @@ def run(ctx, n=None, par=None):
     items = []
     for i in range(n):
         cfg = conc_cfg(ctx.rng)
-        names = list(cfg["services"])
-        ops = [["counters"], ["newctx", "c1"], ["newctx", "c2"]]
-        for nm in names:
+        names = [x for x in cfg["services"] if x not in ("vctx", "vns", "ns")]
+        ops = [["counters"], ["newctx", "c1"], ["newctx", "c2"], ["newctx", "c3"]]
+        for nm in names + ["ns"]:
             ops.append(["par", par, ["get", nm]])
+        # every service whose resolved scope is contextual: many goroutines in each of two contexts
+        for nm in names:
+            if c05.resolved(cfg, nm) == "contextual" and nm != names[-1]:
+                ops += [["par", par, ["getctx", "c1", nm]], ["par", par, ["getctx", "c2", nm]]]
+        ops += [["parmix", max(2, par // 4), [["getctx", "c1", "vctx"], ["getctx", "c2", "vctx"], ["getctx", "c3", "vctx"], ["get", "vns"], ["get", "vctx"]]]]
         ops += [["parmix", max(2, par // 8), [["param", "m%d" % k] for k in range(8)] + [["get", "ns"]]],
                 ["par", par, ["param", "fp"]], ["par", par, ["param", "cat"]], ["par", par, ["tagged", "t"]], ["par", par, ["call", "GetFirst"]],
                 ["par", par, ["getctx", "c1", names[-1]]], ["par", par, ["getctx", "c2", names[-1]]], ["counters"]]
@@ -85,6 +94,10 @@ def run(ctx, n=None, par=None):
                         want = "<m%d|x|%d-x>" % (k, k)
                         if x.get("ok", {}).get("v") != want:
                             violations.append({"sig": "concurrent-wrong-value", "what": "GetParam(%s) under concurrency returned %r, expected %r" % (o[1], x.get("ok"), want), "files": rec["files"]})
+                    elif o[-1] in ("vctx", "vns"):
+                        lg = x.get("ok", {}).get("log", [])
+                        if len(lg) != 1:
+                            violations.append({"sig": "value-service-instance-reused", "what": "%r under concurrency returned an object whose call log has %d entries (a fresh instance has exactly its own call): the value expression is not evaluated per construction" % (o, len(lg)), "files": rec["files"]})
                     elif o == ["get", "ns"]:
                         a = x.get("ok", {}).get("args", {}).get("v", [])
                         if len(a) < 3 or a[1].get("v") != "xxyxz" or a[2].get("v") != "<m0|x|0-x>-<m1|x|1-x>":
